@@ -30,6 +30,7 @@ pub const V1: u64 = 9; // second-level spend of T1:0
 pub const V2: u64 = 10; // second-level spend of T2:0
 pub const V12A: u64 = 11; // second-level spend of T12:0
 pub const V12B: u64 = 12; // second-level spend of T12:1
+pub const D2: u64 = 13; // double-spend of the other funding input 0.1 (independent of D)
 pub const X0: u64 = 20; // unrelated transactions X0..X0+9
 
 /// Deliver a block connection the way the real front end does: compact proof, or — when requested, or
@@ -184,6 +185,7 @@ impl World {
         let mut txs = BTreeMap::new();
         txs.insert(F, funding_tx.clone());
         txs.insert(D, mk_tx(vec![make_outpoint(2)], 1, 12));
+        txs.insert(D2, mk_tx(vec![make_outpoint(1)], 1, 23));
         txs.insert(M, mk_tx(vec![funding_outpoint], 2, 13));
         txs.insert(U, u);
         txs.insert(S, mk_tx(vec![OutPoint::new(utxid, our)], 1, 15));
